@@ -53,6 +53,7 @@ class Scenario:
         self._seen_s = 0
         self.stop = False
         self.bare = set()        # ends that handled a frame with a bare `deliver` and had no real round since
+        self.idle_bad = []       # real passes that did not lower the measure and yet left something to do at their end
         self.mu_bad = []         # real passes that did not decrease the termination measure although they changed the state
         self.wrote = {}          # (flow, 'app'|'dst') -> bytes written by the endpoint (harness log)
 
@@ -78,6 +79,15 @@ class Scenario:
             mu1 = self.t.mu()
             if mu1 > mu0 or (mu1 == mu0 and self.t.show() != show0):
                 self.mu_bad.append((len(self.s.ins), mu0, mu1))
+            # C02_pass_without_progress_is_quiet on the real objects: a pass in the environment as it is, every
+            # socket answering fully, the tunnel not paused, that does not lower the measure found no frame on its
+            # way to this end and leaves every handler of this end quiet (handlers that handled a frame in a bare
+            # `deliver` step have not had the callback the theorem's `Noticed` stands for: not judged)
+            mux = self.t.cmux if st[1] == 'c' else self.t.smux
+            if (mu1 == mu0 and st[3] == 'auto' and st[4].text() == 'ok d65536 s65536 0' and not mux.too_full
+                    and not self.bare and not (n0 > 0 and len(src.outbuf) == n0)):
+                if n0 > 0 or not self.t.end_quiet(st[1]):
+                    self.idle_bad.append((len(self.s.ins), st[1], n0))
         if src is not None and len(src.outbuf) < n0:
             # frames really arrived in that pass: the real loop gave every Proxy of that end its callback after them
             self.bare.discard(st[1])
@@ -366,6 +376,14 @@ def oracle_quiet(ctx, sc, prop):
                'a pass of the real loop that changes anything lowers the count of work left (C02_bounded_work)',
                'measure %d -> %d' % (mu0, mu1))
         sc.mu_bad = []
+        return False
+    if getattr(sc, 'idle_bad', None):
+        at, end, n0 = sc.idle_bad[0]
+        report(ctx, sc, '%s:work:idle-pass-leaves-work' % prop, 0, 'pass of end %s ending at script line %d' % (end, at),
+               'a pass of the real loop that does not lower the measure leaves no frame on its way to that end and '
+               'every handler of that end quiet (C02_pass_without_progress_is_quiet)',
+               '%d frame(s) waiting; handlers quiet: %s' % (n0, t.end_quiet(end)))
+        sc.idle_bad = []
         return False
     if t.died or t.cmux.outbuf or t.smux.outbuf:
         return True
